@@ -148,10 +148,11 @@ def are_different(left, right):
     """
     Return True if two values are different from one another.
 
-    Values are considered different if they do not share the same type. In case
-    of numerical value, the comparison is done with :func:`numpy.isclose` to
-    account for rounding. In the context of this test, `nan` compares equal to
-    itself, which is not the default behavior.
+    Values are considered different if they do not share the same type.
+    Integers are compared exactly. In case of other numerical values, the
+    comparison is done with :func:`numpy.isclose` to account for rounding. In
+    the context of this test, `nan` compares equal to itself, which is not the
+    default behavior.
 
     The order of mappings (dicts) is assumed to be irrelevant, so two
     dictionaries are not different if the only difference is the order of the
@@ -166,6 +167,12 @@ def are_different(left, right):
     # early to avoid extra work.
     if left is None:
         return False
+
+    # Integers (residue numbers, atom ids, charge groups, ...) are identifiers
+    # rather than measurements, they are not subject to rounding. A relative
+    # tolerance would make 100000 and 100001 compare equal.
+    if isinstance(left, numbers.Integral):
+        return left != right
 
     if isinstance(left, numbers.Number):
         try:
